@@ -141,7 +141,8 @@ fn c11_session_multi(env: &WorkerEnv, reqs: &[(String, String, usize)], baseline
         });
     }
     let nreq = reqs.len();
-    let pstr: &str = &reqs.iter().map(|r| format!("{} {:?}{}", r.0, r.1, if r.2 != 3 { format!(" ({} content bytes)", r.2) } else { String::new() })).collect::<Vec<_>>().join(" ; ");
+    let show = |p: &str| if p.len() > 80 { format!("{:?}… ({} bytes)", &p[..40], p.len()) } else { format!("{p:?}") };
+    let pstr: &str = &reqs.iter().map(|r| format!("{} {}{}", r.0, show(&r.1), if r.2 != 3 { format!(" ({} content bytes)", r.2) } else { String::new() })).collect::<Vec<_>>().join(" ; ");
     let kind = "session";
     let all_refused = reqs.iter().all(|r| must_refuse(&r.1));
     prog.extend(probe_suffix());
@@ -227,6 +228,32 @@ fn c11_multi_jobs(base: &Path, thorough: bool) -> Vec<Vec<(String, String, usize
             for p2 in &s {
                 out.push(vec![((*k1).to_string(), p1.clone(), 3), ((*k2).to_string(), p2.clone(), 3)]);
             }
+        }
+    }
+    // refused paths so long that the REQUEST frame is at, or just below, the 1 MiB control-frame bound (whatever the
+    // server builds from the path — an error message, a log line — must still fit or be cut)
+    let fits = |kind: &str, l: usize| -> bool {
+        let p = "a".repeat(l);
+        let n = if kind == "Get" { cbor(&Request::Get { path: p }).len() } else { cbor(&Request::Delete { path: p, expected: None }).len() };
+        n <= (1 << 20)
+    };
+    let max_for = |kind: &str| -> usize {
+        let mut l = (1usize << 20) - 128;
+        while !fits(kind, l) {
+            l -= 1;
+        }
+        while fits(kind, l + 1) {
+            l += 1;
+        }
+        l
+    };
+    let max_path = max_for("Get");
+    let max_del = max_for("Delete");
+    let lens: Vec<usize> = if thorough { vec![max_path, max_path - 1, max_path - 13, max_path - 14, max_path - 50, max_path - 86, max_path - 87, max_path - 100, max_path - 500, 900_000] } else { vec![max_path, max_path - 14, max_path - 50, max_path - 100] };
+    for l in lens {
+        for kind in ["Get", "Delete"] {
+            let l = if kind == "Delete" { l - (max_path - max_del) } else { l };
+            out.push(vec![(kind.to_string(), format!("../{}", "a".repeat(l - 3)), 3)]);
         }
     }
     let sizes: Vec<usize> = if thorough { vec![8192, 8193, 65_536, 65_537, 262_144, 262_145, 300_000, 1_048_577] } else { vec![65_537, 262_144, 262_145, 300_000] };
@@ -850,6 +877,11 @@ fn server_part(thorough: bool, evals: &AtomicU64, nontrivial: &AtomicU64) -> Vec
             ("name whose staging name exceeds NAME_MAX", long_name, None),
             ("path is an existing directory", "d".into(), None),
         ];
+        let mut targets = targets;
+        let mb: Vec<(String, String)> = ["", "a", "ab"].iter().flat_map(|pre| (76..=86usize).map(move |k| (format!("name of {pre:?} + {k} x U+20AC ({} bytes)", pre.len() + 3 * k), format!("{pre}{}", "\u{20AC}".repeat(k))))).collect();
+        for (n, p) in &mb {
+            targets.push((n.as_str(), p.clone(), None));
+        }
         for (name, path, bad_hash) in targets {
             evals.fetch_add(1, Ordering::Relaxed);
             let mut input = frames[0].clone();
